@@ -5,9 +5,11 @@ import (
 	"bytes"
 	"encoding/json"
 	"fmt"
+	"hash/fnv"
 	"net/http"
 	"net/http/httptest"
 	"runtime/debug"
+	"strings"
 	"sync"
 	"sync/atomic"
 	"time"
@@ -27,6 +29,28 @@ import (
 type ServiceSpec struct {
 	Name string `json:"name"`
 	SDL  string `json:"sdl"`
+	// Wire: comma separated variations of how the service is reached and words its answers
+	// (slash, emptyerrs, s203, s207, redirect); none of them changes what the answers mean.
+	Wire string `json:"wire,omitempty"`
+}
+
+// wireOf derives the wire style of service i from its SDL, so that it is a function of the universe.
+func wireOf(i int, sdl string) string {
+	h := fnv.New32a()
+	h.Write([]byte(sdl))
+	switch (int(h.Sum32()>>4) + i) % 12 {
+	case 0:
+		return "slash"
+	case 1:
+		return "emptyerrs"
+	case 2:
+		return "s207"
+	case 3:
+		return "s203,emptyerrs,slash"
+	case 4:
+		return "redirect"
+	}
+	return ""
 }
 
 // UniverseSpec is the serialisable description of a universe.
@@ -56,7 +80,8 @@ func (c Config) String() string {
 func FromUniverse(u *gen.Universe, data gen.DataCfg) UniverseSpec {
 	us := UniverseSpec{Mono: u.SDL(-1), Data: data}
 	for i := 0; i < u.K; i++ {
-		us.Services = append(us.Services, ServiceSpec{Name: fmt.Sprintf("svc%d", i), SDL: u.SDL(i)})
+		sdl := u.SDL(i)
+		us.Services = append(us.Services, ServiceSpec{Name: fmt.Sprintf("svc%d", i), SDL: sdl, Wire: wireOf(i, sdl)})
 	}
 	return us
 }
@@ -152,10 +177,14 @@ func NewServices(spec UniverseSpec) (*Rig, error) {
 	r.Mono, r.Data = mono, data
 	for i, ss := range spec.Services {
 		url := fmt.Sprintf("http://u%d-s%d.test/graphql", id, i)
+		if strings.Contains(ss.Wire, "slash") {
+			url += "/"
+		}
 		svc, err := fake.NewService(ss.Name, url, ss.SDL, data, r.Log)
 		if err != nil {
 			return nil, fmt.Errorf("generator bug: %v", err)
 		}
+		svc.ApplyWire(ss.Wire)
 		fake.Global.Register(svc)
 		r.Services = append(r.Services, svc)
 		r.URLs = append(r.URLs, url)
